@@ -213,6 +213,7 @@ Section Agree.
     - match goal with |- match ?g1 with _ => _ end = match ?g2 with _ => _ end => assert (E : g1 = g2) end.
       { induction l as [|a l IHl]; [reflexivity|]. rewrite (IH a), IHl. reflexivity. }
       rewrite E. reflexivity.
+    - rewrite (IH e1), (IH e2). reflexivity.
   Qed.
 
   Lemma simple_agree : forall sh m pl s, Inv sh m ->
@@ -428,4 +429,17 @@ Proof.
     intros Hin. apply negb_true_iff in Ha.
     assert (existsb (field_eqb f) l = true) by (apply existsb_exists; exists f; split; [exact Hin | apply field_eqb_eq0; reflexivity]).
     congruence.
+Qed.
+
+(* a translated function at one public configuration: runs to completion on every memory that agrees with the public fields,
+   with the SAME trace of branch decisions and (region, offset, width) accesses *)
+Theorem run_final : forall fields callf code fuel pl sh pl' sh' c t,
+  fields_okb fields = true ->
+  flat fields fuel pl sh code = Some (pl', sh', c, t) ->
+  forall m, Inv fields sh m ->
+  interp fields callf fuel pl (m, []) code = Some (pl', exec bool xorb andb false true callf c (m, []), t).
+Proof.
+  intros fields callf code fuel pl sh pl' sh' c t Hf Hfl m HI.
+  destruct (fields_okb_sound fields Hf) as [Hd Hn].
+  apply (interp_of_flat fields callf Hd Hn fuel code pl sh m pl' sh' c t HI Hfl).
 Qed.
